@@ -216,6 +216,19 @@ chk("C07",
     "the smallest-relative-azimuth rule is not the right-handed assignment are implementation-tier only.",
     "TLA+ kernel spec (Readers, ReadArgs) model-checked with TLC; the harness writes real files for every TLC case and reads them back", "DESIGN.md#c07")
 
+chk("C01",
+    "The definition 'smoothed combined horizontal over smoothed vertical at the requested centres' is specified over integer amplitude "
+    "spectra on K interior FFT bins for all 9 method names (5 functions; sqrt-valued combinations carried as squares) and two kernels on "
+    "the bin grid, and over Gaussian-integer bins with Pythagorean azimuths for single azimuth / RotDpp; TLC checks invariance under a "
+    "common factor, linearity in the horizontals, inverse proportionality to the vertical, the closed form for proportional components "
+    "and alias equality, and exports exact ingredients; every case becomes three time series (irfft, FFT length = window length after a "
+    "calibration probe) processed by process(). Taper and zero padding are bound by factorisation, scaling by powers of two bit-exactly, "
+    "proportional components and 'never truncates' on seeded noise for every method, RotDpp, diffuse field and all seven operators.",
+    "Trusted: TLC; spec/Spectral.tla, SpectralAz.tla; numpy's rfft/irfft as the DFT; scipy's tukey as the taper definition. Exactness is "
+    "shown on the integer alphabets (K <= 5 bins); for generic float windows only the metamorphic and factorisation relations are decided. "
+    "The azimuthal fan-out is bound relationally in C04 (stack of single-azimuth results).",
+    "TLA+ kernel specs (Spectral, SpectralAz) model-checked with TLC; one implementation test per TLC case; factorisation/metamorphic replays", "DESIGN.md#c01")
+
 def main():
     man = dict(
         version=1,
